@@ -84,6 +84,15 @@ def gen_plan(seed):
                 s_['fail']['after'] = rng.choice([0, 1, 2, rng.randint(0, 30), rng.randint(0, 60)])
             if s_['uri'] == 'raise':
                 s_['uri'] = 'unknown'
+    elif rng.random() < 0.08:
+        # the same history over the real USB driver stack (UsbDriver, CfUsb, fake pyusb device)
+        plan['scenario'] = 'lifecycle-usb'
+        plan['link'] = 'usb'
+        knobs['needs_resending'] = False
+        for s_ in ops:
+            if s_.get('fail'):
+                s_['fail']['mode'] = 'driver'       # unplugging is reported by the receive thread
+                s_['fail']['block'] = 0
     return plan
 
 
@@ -97,6 +106,8 @@ def gen_session(rng, est):
         k = rng.choice([0, 1, 2, rng.randint(0, est), rng.randint(0, est), rng.randint(0, 2 * est + 10)])
         s['fail'] = {'after': k, 'mode': rng.choice(['driver', 'sender']),
                      'block': rng.choice([0, 0, 2.0])}
+        if k == 0 and s['fail']['mode'] == 'driver' and rng.random() < 0.5:
+            s['fail']['in_connect'] = True      # reported by the driver thread before connect() returns
     if r >= 0.45:
         # user close at a seeded instant (phase + delay), from a user thread or the main thread
         s['close'] = {'phase': rng.choice(['requested', 'link', 'link', 'connected', 'connected', 'full', 'full',
@@ -126,6 +137,16 @@ def directed(tier):
                                            'fail': {'after': k, 'mode': mode, 'block': 0}},
                                           {'uri': 'good', 'sync': sync, 'fail': None, 'close': None,
                                            'final': True}]})
+    # the driver thread reports the failure before connect() has returned
+    for sync in (False, True):
+        for variant in range(2 if tier == 'quick' else 6):
+            n += 1
+            plans.append({'seed': 903000 + n, 'scenario': 'directed-error-inside-connect',
+                          'knobs': {'line_mean': [0, 10, 3, 40, 3, 10][variant], 'p_stall': 0.0, 'stall_window': 0.02,
+                                    'needs_resending': True, 'lat': (0.0005, 0.003)}, 'device': dev,
+                          'ops': [{'uri': 'good', 'sync': sync, 'close': None, 'final': False,
+                                   'fail': {'after': 0, 'mode': 'driver', 'block': 0, 'in_connect': True}},
+                                  {'uri': 'good', 'sync': sync, 'fail': None, 'close': None, 'final': True}]})
     # close_link from a user thread racing a link error that is reported at the same moment (the schedule varies
     # with the seed): both handlers test cf.link and then use it
     for k in (0, 1, 2, 3):
@@ -153,6 +174,9 @@ def execute(ctx):
     plan = ctx.plan
     sim = ctx.sim
     radio = plan.get('link') == 'radio'
+    # (each run is a fresh forked process) the real driver stacks spin at the radio / USB polling rate: a shorter bound
+    # keeps the wall time of a run that has to wait for a bound in check
+    globals()['BOUND'] = 8.0 if plan.get('link') in ('radio', 'usb') else 30.0
     if radio:
         import cflib.crtp.radiodriver as rd
         from world import gen as wgen2
@@ -163,6 +187,12 @@ def execute(ctx):
         rd.set_retries_before_disconnect(ctx.knobs.get('retries', 20))
         rd.set_retries(1)
         w.reject_connect = []
+    elif plan.get('link') == 'usb':
+        from world import gen as wgen2
+        from world.usbcf import UsbWorld
+        dev = wgen2.build_device(sim, plan['device'])
+        w = UsbWorld(sim, ctx.faults, dev, lat=ctx.knobs.get('lat', (0.0005, 0.003))[0] or 0.0002)
+        w.install()
     else:
         w, devs = common.make_world(ctx, {'cf': plan['device']})
         dev = devs['cf']
@@ -172,6 +202,8 @@ def execute(ctx):
     if radio:
         ctx.uri_map.update({'good': 'radio://0/80/2M/E7E7E7E7E7', 'nodevice': 'radio://0/81/2M/E7E7E7E7E7',
                             'malformed': 'radio:/', 'raise': 'bogus://x'})
+    if plan.get('link') == 'usb':
+        ctx.uri_map.update({'good': 'usb://0', 'nodevice': 'usb://1', 'malformed': 'usb:/', 'raise': 'usb://0'})
     state = {}
     ctx.pending = []
 
@@ -219,7 +251,15 @@ def execute(ctx):
 class Recorder2(common.Recorder):
     def __init__(self, ctx, cf, hist, dev):
         self.dev = dev
+        self.tick = 0
+        self.dispatch_begins = []
+        self.td_start = None
         common.Recorder.__init__(self, ctx, cf, hist, on_event=self.on_event)
+        cf.packet_received.callbacks.insert(0, self._dispatch_begin)
+
+    def _dispatch_begin(self, pk):
+        self.tick += 1
+        self.dispatch_begins.append(self.tick)
 
     def probe_dispatcher(self, *a):
         # is the dispatcher thread in the middle of dispatching a packet while the link is torn down?
@@ -238,6 +278,18 @@ class Recorder2(common.Recorder):
                 if f.f_code.co_name == 'run' and f.f_code.co_filename.endswith('crazyflie/__init__.py'):
                     break
                 f = f.f_back
+        self.tick += 1
+        if a:
+            self.td_start = self.tick          # the driver starts closing
+        elif not idle or self.td_start is None:
+            pass
+        elif any(self.td_start < b < self.tick for b in self.dispatch_begins):
+            # the dispatcher took a packet that was queued when the driver closed and dispatched it while the library
+            # was forgetting the link / running its disconnect handlers on another thread
+            idle = False
+            self.ctx.probe('dispatch began between driver close and the end of the disconnect handlers')
+        if not a:
+            self.td_start = None
         if not idle:
             self.note('teardown-during-dispatch', 'self' if self.ctx.sim.cur() is ts else 'other')
             self.ctx.probe('link torn down while the dispatcher was mid-dispatch')
@@ -542,8 +594,16 @@ def check_history(ctx, hist, plan):
                 tainted = True
         if raced and not os.environ.get('VERIF_C02_RAW'):
             n0 = mark
+            # a blocking call that never returns is covered only where the race family explains it: after a concurrent
+            # tear-down the set-up of a later attempt can stall for ever (connected "never"), so a blocking open waits
+            # for ever; in the other families every blocking call still has to return
+            stall_ok = 'teardown-during-dispatch' in tags or 'after-teardown-during-dispatch' in tags
+            hard = ('C02/5 thread-died', 'C02/5 deadlock', 'C02/5 hang ', 'C02/5 api-raised', 'C02/5 close_link-hang',
+                    'C02/5 open_link-hang', 'C02/5 link-error-callback-hang')
+            if not stall_ok:
+                hard = hard + ('C02/5 sync-open_link-hang',)
             for v in ctx.violations[n0:]:
-                if not v['sig'].startswith(('C02/5 thread-died', 'C02/5 deadlock', 'C02/5 hang ', 'C02/5 api-raised')):
+                if not v['sig'].startswith(hard):
                     v['msg'] = '%s: %s' % (v['sig'], v['msg'])
                     v['sig'] = 'C02/race raced-attempt%s' % (tag,)
     for (si, clause, sig, msg, detail) in ctx.pending:
